@@ -772,8 +772,9 @@ func (g *pkGen) insideEvents() {
 }
 
 // plans: for target p, the (alias kind, prefix, route) combinations.
-//   every: all routes; else the routes rotate (nrot per target)
-//   allK:  every admissible alias prefix; else the prefixes rotate
+//
+//	every: all routes; else the routes rotate (nrot per target)
+//	allK:  every admissible alias prefix; else the prefixes rotate
 func (g *pkGen) plans(kinds, routes []string, every, allK bool, nrot int) func(p []string) []pkPlan {
 	c := 0
 	return func(p []string) []pkPlan {
